@@ -1253,7 +1253,13 @@ func handleState(fr *FrameHeader, strm *Stream) {
 	case StreamStateReserved:
 		// TODO: ...
 	case StreamStateOpen:
-		if fr.Flags().Has(FlagEndStream) {
+		// END_STREAM exists on HEADERS and DATA only. The same bit on any
+		// other frame type has no meaning and is ignored (RFC 7540 4.1): a
+		// PRIORITY or WINDOW_UPDATE carrying it used to end the request.
+		endStream := (fr.Type() == FrameHeaders || fr.Type() == FrameData) &&
+			fr.Flags().Has(FlagEndStream)
+
+		if endStream {
 			strm.SetState(StreamStateHalfClosed)
 		} else if fr.Type() == FrameResetStream {
 			strm.SetState(StreamStateClosed)
